@@ -143,7 +143,13 @@ def run(eng, ctx, reader_side=True):
             # empty return: must be under a failed receive, no store on that path
             failed = any(c[0] == "call" and is_self_call(c, rv.name) and not pol for c, pol in e.guards)
             ctx.check(failed, "C11.D3", rd.qualname, norm(e.node), expected="b'' only when the receiver reports failure", found=guard_text(e.guards)[:100], **loc)
-            before = [s for s in stores if s.seq < e.seq and s.loops == e.loops]
+            from ..symeval import neg_lit
+
+            def same_path(a, b):  # no literal of one path condition is contradicted by the other
+                gb = set(b.guards)
+                return not any(neg_lit(l) in gb or (l[0], not l[1]) in gb for l in a.guards)
+
+            before = [s for s in stores if s.seq < e.seq and s.loops == e.loops and same_path(s, e)]
             ctx.check(not before, "C11.D3", rd.qualname, "no store before the empty return", expected="buffer untouched on timeout/close", found=", ".join(norm(s.node) for s in before) or "-", **loc)
             continue
         data_rets += 1
